@@ -12,7 +12,7 @@
 (* and the same d-separation statements (n <= 3 by default: SameDSepMaxN). *)
 (***************************************************************************)
 EXTENDS ScoreSpec, DagLib, Json
-CONSTANTS MaxN, SameDSepMaxN
+CONSTANTS MaxN, SameDSepMaxN, IEqMaxN
 Tokens == <<"v0", "v1", "v2", "v3", "v4">>
 NodeSet(n) == {Tokens[i] : i \in 1..n}
 
@@ -26,14 +26,18 @@ Init == n \in 1..MaxN /\ E \in DAGTab[n] /\ ph = 0
 Visit == ph = 0 /\ ph' = 1 /\ UNCHANGED <<n, E>>
 Next == Visit
 
-Class(k, G) == {G2 \in DAGTab[k] : IEquivalent(G, G2)}
+\* DagLib!IEquivalent(G, H) is by definition EKey(G) = EKey(H); the printed classes are grouped by the key (computed once per
+\* DAG), and ClassLemmas ties them back to IEquivalent literally for n <= IEqMaxN (|DAGs|^2 evaluations: 4 only in thorough)
+EKey(G) == <<Skeleton(G), VStructs(G)>>
+KeyTab == [k \in 1..MaxN |-> [G \in DAGTab[k] |-> EKey(G)] @@ <<>>] @@ <<>>
+Class(k, G) == {G2 \in DAGTab[k] : KeyTab[k][G2] = KeyTab[k][G]}
 Families(N, G) == {[v |-> v, ps |-> Pa(G, v)] : v \in N}
 
 ClassLemmas == ph = 1 =>
     LET N == NodeSet(n)
         C == Class(n, E) IN
     /\ E \in C
-    /\ C = {G \in DAGTab[n] : <<Skeleton(G), VStructs(G)>> = <<Skeleton(E), VStructs(E)>>}
+    /\ (n <= IEqMaxN => C = {G \in DAGTab[n] : IEquivalent(E, G)})
     /\ \A G \in C : Cardinality(G) = Cardinality(E)
     /\ \A G \in C : LogPrior([t |-> "bds", ess |-> 1], n, Cardinality(G)) = LogPrior([t |-> "bds", ess |-> 1], n, Cardinality(E))
     /\ (n <= SameDSepMaxN => \A G \in DAGTab[n] : (G \in C) <=> SameDSep(N, E, G))
